@@ -1,5 +1,6 @@
 import OcppModel.ServerSpec
 import OcppProps.CDLemmas
+import OcppProps.SFine
 import OcppModel.Expected
 import OcppGen.Skeletons
 
@@ -276,5 +277,29 @@ example :
     SD.get (step s (.disconnect "A")).1 "B" = SD.get s "B" ∧
     (step (step (step s (.disconnect "A")).1 (.connect "A")).1 (.send "A" "a3")).2 = [.accepted "A" "a3", .wrote "A" "a3"] ∧
     (step (step s (.disconnect "A")).1 (.send "A" "a3")).2 = [.rejected "A" "a3"] := by decide
+
+/-! ### Below quiescence (server dispatcher, per client, every interleaving; `OcppProps/SFine.lean`): what a session can
+leave behind -/
+
+/-- queue objects of successive connections are disjoint: a request lives in the queue of the connection it was accepted on -/
+theorem sfine_queues_disjoint {s : Ocpp.ServerFine.St} (h : SFine.Reach s) (i j x : Nat) (hij : i ≠ j)
+    (hx : x ∈ Ocpp.ServerFine.getQ s.qs i) : x ∉ Ocpp.ServerFine.getQ s.qs j := SFine.queues_disjoint h i j x hij hx
+
+/-- the two places that clear the pending mark without a completion (timer branch, failed write) only ever drop a request
+    that is not in the client's current queue: a request of an earlier connection -/
+theorem sfine_dropped_is_orphan {s : Ocpp.ServerFine.St} (h : SFine.Reach s) :
+    (s.pump = .tmO → ∀ p, s.pend = some p → SFine.NotInCur s.cur s.qs p) ∧
+    (∀ hh, s.pump = .wfO hh → s.pend = some hh → SFine.NotInCur s.cur s.qs hh) := SFine.dropped_is_orphan h
+
+/-- before /repo 6d71525: a request of an earlier connection whose write failed stayed pending for ever and nothing was
+    sent to the client any more (kernel-evaluated interleaving; scenario `s-orphan-write-fails` on the code) -/
+theorem sfine_old_orphan_stays_pending :
+    ((Ocpp.ServerFine.runL { dropW := false } (SFine.orphanRun ++ [.takeReq, .pstep, .pstep, .pstep])).map (fun s =>
+      decide (s.pump = .sel ∧ s.pend = some 1 ∧ s.cur = some 1 ∧ Ocpp.ServerFine.getQ s.qs 1 = [] ∧ s.ctx = .zero ∧ s.live = [] ∧
+        s.tc = [] ∧ s.reqs = 0 ∧ s.ready = .empty ∧ s.sigw = 0 ∧ s.reader = .idle ∧ s.link = .idle))) = some true :=
+  SFine.old_orphan_stays_pending
+
+/-- with the repair the same interleaving drops the orphan and posts a ready signal -/
+example : (Ocpp.ServerFine.runL {} SFine.orphanRun).map (fun s => (s.pump, s.pend, s.cur)) = some (.wfOS 1, none, some 1) := by decide
 
 end C11
